@@ -302,6 +302,8 @@ def optdep_history(rng):
     def b(on):
         return {"op": "build", "tasks": proj(on), "cfg": dict(cfg), "faults": {}}
     ops = [{"op": "set", "n": 101, "c": rng.randint(1, 50)}, {"op": "set", "n": 102, "c": rng.randint(1, 50)}, b(True)]
+    if rng.random() < 0.25:
+        ops += [b(False)]         # the dependency leaves and nothing else changes: F6, the statically declared sibling
     ops += [{"op": "set", "n": 101, "c": rng.randint(51, 99)}, b(False)]
     if rng.random() < 0.5:
         ops += [b(False)]
